@@ -211,6 +211,12 @@ def run(ctx):
     # ---- R5 ----------------------------------------------------------------------
     _hash_guards(ctx)
 
+    # ---- R7 ----------------------------------------------------------------------
+    # a bare TypeError from the explanation path (rule shared with C03.R7)
+    from . import _gen
+    from .c03 import _licensed_operations
+    _licensed_operations(ctx, _gen.dispatch(ctx), 'C11.R7')
+
     # ---- R6 ----------------------------------------------------------------------
     ctx.rule('C11.R6', 'no generated wrapper puts the call-through (or a validator invocation) inside a try body: a '
              'user exception propagates unchanged; the only try statements are the PEP 525 forwarding handlers')
